@@ -122,6 +122,15 @@ fn long_or_overflow(value: Option<i64>) -> Result<Variant, VariantError> {
     }
 }
 
+/// The result of floating point arithmetic, or an overflow if it is not a finite number.
+fn finite_or_overflow(result: Result<Variant, VariantError>) -> Result<Variant, VariantError> {
+    match result {
+        Ok(Variant::VSingle(f)) if !f.is_finite() => Err(VariantError::Overflow),
+        Ok(Variant::VDouble(d)) if !d.is_finite() => Err(VariantError::Overflow),
+        _ => result,
+    }
+}
+
 // TODO implement standard operators with panics, let the linter guarantee the type compatibility
 
 impl Variant {
@@ -217,6 +226,10 @@ impl Variant {
     }
 
     pub fn plus(self, other: Self) -> Result<Self, VariantError> {
+        finite_or_overflow(self.plus_unchecked(other))
+    }
+
+    fn plus_unchecked(self, other: Self) -> Result<Self, VariantError> {
         match self {
             Self::VSingle(f_left) => match other {
                 Self::VSingle(f_right) => Ok(Self::VSingle(f_left + f_right)),
@@ -249,6 +262,10 @@ impl Variant {
     }
 
     pub fn minus(self, other: Self) -> Result<Self, VariantError> {
+        finite_or_overflow(self.minus_unchecked(other))
+    }
+
+    fn minus_unchecked(self, other: Self) -> Result<Self, VariantError> {
         match self {
             Self::VSingle(f_left) => match other {
                 Self::VSingle(f_right) => Ok(Self::VSingle(f_left - f_right)),
@@ -283,6 +300,10 @@ impl Variant {
     }
 
     pub fn multiply(self, other: Self) -> Result<Self, VariantError> {
+        finite_or_overflow(self.multiply_unchecked(other))
+    }
+
+    fn multiply_unchecked(self, other: Self) -> Result<Self, VariantError> {
         match self {
             Self::VSingle(f_left) => match other {
                 Self::VSingle(f_right) => Ok(Self::VSingle(f_left * f_right)),
@@ -311,6 +332,10 @@ impl Variant {
     }
 
     pub fn divide(self, other: Self) -> Result<Self, VariantError> {
+        finite_or_overflow(self.divide_unchecked(other))
+    }
+
+    fn divide_unchecked(self, other: Self) -> Result<Self, VariantError> {
         match self {
             Self::VSingle(f_left) => match other {
                 Self::VSingle(f_right) => div!(f_left, f_right),
